@@ -376,6 +376,13 @@ class Interp:
         cls = e.get("cls", "")
         obj = self.expr(e["obj"], env) if e.get("obj") is not None else None
         args = e["a"]
+        if obj is None and (e.get("fn") or "").split("::")[-1] in ("min", "max") and len(args) == 2 and not e.get("op"):
+            # std::min / std::max of two values whose order the abstract configuration fixes (subgrid indices, integers)
+            a_, b_ = self.expr(args[0], env), self.expr(args[1], env)
+            a_le_b = self.compare("<=", a_, b_, e)
+            if (e.get("fn") or "").endswith("min"):
+                return a_ if a_le_b else b_
+            return b_ if a_le_b else a_
         if obj is None and not cls and e.get("fn") in Interp.helpers and not e.get("op"):
             callee = Interp.helpers[e["fn"]]
             if len(callee["params"]) != len(args):
